@@ -9,6 +9,9 @@
 //	rt-int <N>                integer: print, parse back                  → x<text> rt=t|f
 //	rt-val <value>            program-format text, parse (+ resolve constructor calls), compare
 //	                                                                      → x<text> rt=t|f
+//	rt-objlit <xTYPENAME> (h (k v)*) (<xBADRX>*)
+//	                          the WRITTEN form of an object instance: px.New(type, init hash) printed in program format, and
+//	                          what that text parses to                                    → x<text> value <expr> | …
 //	rt-tval <value> (<xBADRX>*) ((BITS xFTEXT)*)
 //	                          the same for a value that holds TYPES ((ty xTEXT) leaves): the model resolves the type
 //	                          expressions of the parse result as types.ResolveDeferred does                   → x<text> rt=t|f
@@ -143,6 +146,20 @@ func exec1(c px.Context, op string, args []sx.Sexp) core.Result {
 			v = o.Val
 		}
 		return rtValue(c, op, v, args[0].IsList && len(args[0].List) > 2, valClass(args[0]))
+	case "rt-objlit":
+		if len(args) != 3 {
+			break
+		}
+		var text string
+		if o := syn.Safely(func() px.Value {
+			inst := px.New(c, c.ParseType(args[0].MustStr()), valOf(c, args[1]))
+			text = px.ToString2(inst, programFormat())
+			return px.Undef
+		}); o.Kind != "value" {
+			return core.Result{Out: "unbuildable", Pred: "n/a", Tags: []string{"rt-objlit", "unbuildable"}}
+		}
+		p := syn.Parse(text)
+		return core.Result{Out: hx(text) + " " + p.Canon(), Pred: "ok", NonTrivial: true, Tags: []string{"rt-objlit", "parse:" + p.Kind}}
 	case "rt-type":
 		if len(args) != 2 && len(args) != 3 {
 			break
@@ -934,6 +951,70 @@ func valOp(c px.Context, v string) string {
 	return "rt-val " + v + " " + syn.OracleSexp(text)
 }
 
+// litSexp renders a value of the literal kinds in the value syntax ("" when it holds anything else)
+func litSexp(v px.Value) string {
+	switch v := v.(type) {
+	case *types.UndefValue:
+		return "u"
+	case *types.DefaultValue:
+		return "d"
+	case px.Boolean:
+		return "(b " + sx.B(v.Bool()) + ")"
+	case px.Integer:
+		return "(i " + strconv.FormatInt(v.Int(), 10) + ")"
+	case px.Float:
+		return floatSexp(v.Float())
+	case px.StringValue:
+		return "(s " + hx(v.String()) + ")"
+	case *types.Array:
+		out := "(a"
+		ok := true
+		v.Each(func(e px.Value) {
+			x := litSexp(e)
+			ok = ok && x != ""
+			out += " " + x
+		})
+		if !ok {
+			return ""
+		}
+		return out + ")"
+	case *types.Hash:
+		out := "(h"
+		ok := true
+		v.EachPair(func(k, e px.Value) {
+			a, b := litSexp(k), litSexp(e)
+			ok = ok && a != "" && b != ""
+			out += " (" + a + " " + b + ")"
+		})
+		if !ok {
+			return ""
+		}
+		return out + ")"
+	}
+	return ""
+}
+
+// objLitOp: for an (obj …) / (param …) / (tname …) value whose init hash holds literal kinds only, the op line that compares
+// the WRITTEN form (type name + init hash) with the model; "" otherwise
+func objLitOp(c px.Context, v string) string {
+	xs, err := sx.Parse(v)
+	if err != nil || len(xs) != 1 {
+		return ""
+	}
+	var name, ih, text string
+	if o := syn.Safely(func() px.Value {
+		if po, ok := valOf(c, xs[0]).(px.PuppetObject); ok {
+			name = po.PType().Name()
+			ih = litSexp(po.InitHash())
+			text = px.ToString2(po, programFormat())
+		}
+		return px.Undef
+	}); o.Kind != "value" || name == "" || ih == "" || !strings.HasPrefix(ih, "(h") {
+		return ""
+	}
+	return "rt-objlit " + hx(name) + " " + ih + " " + syn.OracleSexp(text)
+}
+
 // tyLeavesModelled: is every (ty xTEXT) leaf of the value a type expression inside the resolver model that the
 // implementation accepts?
 func tyLeavesModelled(c px.Context, e sx.Sexp) bool {
@@ -971,6 +1052,7 @@ func typeOp(c px.Context, t string) string {
 
 func gen(g *core.G) {
 	c := px.CurrentContext()
+	defineTypes(c) // the generator builds object instances too (objLitOp)
 	// exhaustive: every string of length <= 2 (quick) / <= 3 (thorough) over the hostile alphabet, as a string and as a quote op
 	alpha := syn.HostileAlphabet
 	var rec func(cur string, n int)
@@ -1238,7 +1320,16 @@ func gen(g *core.G) {
 	}
 	for _, ns := range []string{"type", "function", "constructor", "definition", "handler", "service", "step", "plan", "task", "allocator", "interface"} {
 		for _, nm := range []string{"foo", "My::Thing", "a::b::c", "X"} {
-			g.Emit("@rt-val (tname " + hx(ns) + " " + hx(nm) + ") ()")
+			tv := "(tname " + hx(ns) + " " + hx(nm) + ")"
+			g.Emit("@rt-val " + tv + " ()")
+			if op := objLitOp(c, tv); op != "" {
+				g.Emit(op)
+			}
+		}
+	}
+	for _, pv := range []string{"(obj " + hx("My::Pt") + " (i 3) (s " + hx("it's") + "))", "(obj " + hx("My::Pt") + " (i 3))", "(obj " + hx("My::Box") + " (a (i 1) (s " + hx("x") + ")) (s " + hx("l") + "))"} {
+		if op := objLitOp(c, pv); op != "" {
+			g.Emit(op)
 		}
 	}
 	for _, dv := range []string{"(dfr " + hx("foo") + ")", "(dfr " + hx("foo") + " (i 1) (s " + hx("a") + "))", "(dfr " + hx("$x") + ")", "(a (dfr " + hx("my::fn") + " (a (i 1))))"} {
@@ -1248,6 +1339,9 @@ func gen(g *core.G) {
 	// another value} per attribute — alone, and inside an array and a hash
 	for i, v := range limInstances() {
 		g.Emit("@rt-val " + v + " ()")
+		if op := objLitOp(c, v); op != "" && i%3 == 0 {
+			g.Emit(op)
+		}
 		if i%7 == 0 {
 			g.Emit("@rt-val (a " + v + " (h ((s " + hx("k") + ") " + v + "))) ()")
 		}
